@@ -40,7 +40,7 @@ STYLES = ['google', 'freeform', 'auto']
 def required_cells(tier):
     return ['style:google', 'style:freeform', 'style:auto', 'feature:async', 'feature:nested-func',
             'feature:class-in-func', 'feature:method:setter', 'feature:method:deleter', 'feature:method:nestedcls',
-            'feature:top:main', 'feature:module-docstring', 'feature:top:adeco', 'feature:top:ctxmgr', 'feature:top:subclass', 'feature:top:handler', 'feature:top:matcharm', 'feature:top:tryelse', 'feature:top:forbody', 'feature:method:setter_stacked', 'feature:method:getter_again', 'feature:top:notmain', 'feature:main-guard-else', 'feature:method:ctxmethod', 'tree:missing-init', 'tree:ok', 'history:file-edited-then-collected-again', 'tree:by-name:not-imported', 'tree:by-name:imported',
+            'feature:top:main', 'feature:module-docstring', 'feature:top:adeco', 'feature:top:ctxmgr', 'feature:top:subclass', 'feature:top:handler', 'feature:top:matcharm', 'feature:top:tryelse', 'feature:top:forbody', 'feature:method:setter_stacked', 'feature:method:getter_again', 'feature:top:notmain', 'feature:main-guard-else', 'feature:method:ctxmethod', 'tree:missing-init', 'tree:ok', 'tree:holds-an-unparsable-module', 'history:file-edited-then-collected-again', 'tree:by-name:not-imported', 'tree:by-name:imported',
             'cli-list', 'calldefs']
 
 
@@ -197,6 +197,8 @@ def check_tree(ctx, idx, seed):
                 if f.endswith('.py'):
                     all_markers += len(gm.MARK_RE.findall(open(os.path.join(dp, f)).read())) // 2
         ctx.cell('tree:missing-init' if all_markers > len(exp) else 'tree:ok')
+        if gm.build_package_tree.last_broken[0]:
+            ctx.cell('tree:holds-an-unparsable-module')
         ctx.nontrivial(repr(listing))
         # ---- the same package named by its module NAME (its parent directory on sys.path), before and after the
         # package has been imported into this process
